@@ -1,5 +1,7 @@
 mod util;
 mod c16;
+mod c17;
+mod rend;
 
 fn main() {
     let args: Vec<String> = std::env::args().collect();
@@ -13,6 +15,15 @@ fn main() {
         ("corr", "C16") => {
             let mut c = util::Corr::new();
             c16::corr(&tier, seed, &mut c);
+        }
+        ("corr", "C17") => {
+            let mut c = util::Corr::new();
+            c17::corr(&tier, seed, &mut c);
+        }
+        ("search", "C17") => {
+            let mut s = util::Search::new();
+            c17::search(&tier, seed, &mut s);
+            s.finish();
         }
         ("search", "C16") => {
             let mut s = util::Search::new();
